@@ -8,6 +8,7 @@ import (
 )
 
 var c20PoolText = []string{
+	`1e-400`, `2e-400`, `4e-324`, `5e-324`, `1e400`, `1e-6000`, `[1e-400]`, `{"a":2e-400}`, `0.1e-399`,
 	`null`, `true`, `false`, `0`, `1`, `-1`, `1.0`, `1e0`, `10e-1`, `100`, `1e2`, `0.1`, `0.10`, `-0`, `0.0`, `2`, `9007199254740993`, `9007199254740992`,
 	`""`, `"0"`, `"1"`, `"true"`, `"false"`, `"null"`, `"a"`, `"A"`, `"é"`, `"é"`, `" "`, `"[]"`, `"{}"`,
 	`[]`, `[null]`, `[[]]`, `[0]`, `[1]`, `[1.0]`, `["1"]`, `[1,2]`, `[2,1]`, `[1,2,3]`, `[1,[2]]`, `[1,[2.0]]`, `[[1],2]`, `[true]`, `[false]`, `[""]`, `[{}]`, `[{"a":1}]`,
